@@ -55,6 +55,12 @@ class H(W.Hooks):
     def __init__(self, ctx):
         self.ctx = ctx
 
+    def accepted_invalid(self, run, o, m):
+        # independent view of the damage (the contract layer has already judged the schedule)
+        errs = feasibility_errors(run.r, schedule_triples(run.d.schedule))
+        self.ctx.violation("c01_infeasible_schedule_after_accepting_a_refusable_request",
+                           {"request": [o, m], "errors": errs[:6], "history": list(run.r.history)})
+
     def end(self, run):
         ctx = self.ctx
         ctx.count("end_of_history_checks")
